@@ -83,6 +83,35 @@ def analyse_entry(run, ev, prog, q, params, config=''):
                           f'`{pname}` reaches scale-dependent {f.qual} {got}; it must have unit norm along axis {axis} '
                           f'(observation parameter(s) {obs} of {q})',
                           construct=f'R-NORM::{q}::{",".join(obs)}::{f.qual}::{path[-1]}', path=full)
+    # no narrowing cast of an observation that is not yet on the unit sphere: values outside the range of the target type flush to zero or overflow
+    # BEFORE the projection removes the scale (a cast after the projection is harmless: unit vectors fit every float type)
+    from ..walk import ctx_tree
+    from ..model import Lib
+    WIDE = {'numpy.float64', 'numpy.complex128', 'numpy.double', 'numpy.cdouble', 'numpy.longdouble', 'numpy.clongdouble', 'numpy.float_', 'numpy.complex_'}
+    seen_casts = set()
+    for c in ctx_tree(ctx):
+        for cf in c.callfacts:
+            cal = cf.callee
+            x = dt = None
+            if isinstance(cal, tuple) and cal and cal[0] == 'ndmethod' and cal[1] == 'astype':
+                x = cal[2]
+                dt = cf.kwargs.get('dtype') if cf.kwargs else None
+                if dt is None and cf.posargs:
+                    dt = cf.posargs[0]
+            elif isinstance(cal, Lib) and cal.dotted in ('numpy.asarray', 'numpy.array', 'numpy.asanyarray', 'numpy.ascontiguousarray') and cf.posargs:
+                x = cf.posargs[0]
+                dt = (cf.kwargs or {}).get('dtype') or (cf.posargs[1] if len(cf.posargs) > 1 else None)
+            if x is None or dt is None or x.norm != 'RAW' or not any(d[0] == 'scale' for d in x.deps):
+                continue
+            wide = bool(dt.fns) and all((isinstance(f_, Lib) and f_.dotted in WIDE) or f_ in (('builtin', 'float'), ('builtin', 'complex')) for f_ in dt.fns)
+            key = (c.fn.qual, getattr(cf.term.node, 'lineno', 0))
+            if wide or key in seen_casts:
+                continue
+            seen_casts.add(key)
+            run.violation('R-NORM', f'{q.split("::")[1]}{config}: cast of a not yet normalised observation in {c.fn.qual.split("::")[1]}', c.fn.loc(cf.term.node),
+                          'the observation is converted to a type that is not known to be double precision before it is projected to the unit sphere: gains outside the range of '
+                          'that type (1e-45 .. 3e38 for single precision) are flushed to zero / overflow, so the result depends on the magnitude of the observation',
+                          construct=f'R-NORM::{q}::cast-before-projection::{c.fn.qual}')
     # output taint: nothing that the entry returns (posterior, log-density, fields of the fitted model) still depends on the
     # magnitude of the observation - covers side channels that bypass the sinks' observation argument (a start value, a
     # weight or a floor computed from the raw observation)
